@@ -1,5 +1,7 @@
 (* C20 driver: replays the harness's IN lines on the extracted model (Model/Mpi.v), prints OUT lines.
    IN TRACE <case> n=.. psz=.. <tokens>   hook trace of the real poller -> acceptor built from [mstep]
+   IN STRACE <case> n=.. psz=1 <tokens>   hook trace of the real poll_singlethreaded -> acceptor built from [sstep]
+                                          with inl = (fun _ -> false) (no callback registers inline) and ONE thread
    IN TM <id> <flags> <events>            one transform_mpi operation: events D0 D1 D2 P0 P1 C0 C1 W R
    IN CMP <id> <slots>                    compaction: slots "n" (null) or a request number *)
 let ios = int_of_string
@@ -108,6 +110,129 @@ let trace id toks =
       (if cl = [] then "-" else String.concat "," (List.map string_of_int cl)) (dups cl)
       (int_of_nat !g.in_flight) (!ndone - List.length cl)
 
+(* poll_singlethreaded: tokens E (2001: counted, single flag), V (2002: pushed), D (harness: MPI completes),
+   S (2009: Testany hit), B (harness callback entered), R (2011: callback returned), C/P/X (compaction), K *)
+let strace id toks =
+  let g = ref m_init and l = ref SIdle in
+  let inl = fun _ -> false in
+  let idmap = Hashtbl.create 64 and rev = Hashtbl.create 64 in
+  let reject = ref None in
+  let pend = ref [] and after = ref 0 and ndone = ref 0 in
+  let t0 = ref (-1) in
+  let fail k msg = if !reject = None then reject := Some (Printf.sprintf "%d:%s" k msg) in
+  let st o = let (g1, l1) = sstep inl o (nat (max !t0 0)) !g !l in g := g1; l := l1 in
+  let thread k t =
+    let t = ios t in
+    if !t0 < 0 then t0 := t;
+    if t <> !t0 then (fail k (Printf.sprintf "second-os-thread-%d-in-the-single-threaded-poller" t); false) else true in
+  let mreq k hid =
+    match Hashtbl.find_opt idmap (ios hid) with
+    | Some r -> Some r
+    | None -> fail k ("unknown-request-" ^ hid); None in
+  (* bring the poller to the MPI_Testany call: enter the polling function if the thread is outside *)
+  let to_test k =
+    (match !l with SIdle -> st SoPoll | _ -> ());
+    (match !l with SCheck -> st SoNoTest | _ -> ());
+    (match !l with
+     | SDrain -> st (SoPick O)
+     | SIdle -> fail k "poll-works-while-the-model-counter-is-zero"
+     | _ -> ());
+    (match !l with STest -> true | _ -> fail k "poller-not-at-testany"; false) in
+  List.iteri (fun k tok ->
+    if !reject = None then
+      match String.split_on_char ',' tok with
+      | ["E"; t; hid; sm] ->
+        if thread k t then begin
+          if sm <> "1" then fail k "registration-took-the-queue-branch-(single_thread_mode_-is-off)" else
+          match !l with
+          | SIdle ->
+            let r = int_of_nat !g.next_req in
+            Hashtbl.replace idmap (ios hid) r; Hashtbl.replace rev r (ios hid);
+            st SoSubmit; st SoNoTest;
+            (match !l with SSPush (_, None) -> () | _ -> fail k "submit-steps")
+          | SInCb (_, _) -> fail k "registration-from-inside-a-running-callback-(no_inline_add-violated)"
+          | _ -> fail k "registration-while-the-model-thread-is-inside-the-poller"
+        end
+      | ["V"; t; hid; size] ->
+        if thread k t then
+        (match mreq k hid, !l with
+         | Some r, SSPush (r', None) when int_of_nat r' = r ->
+           st SoNoTest;
+           if List.length !g.vreq <> ios size || List.length !g.vcb <> ios size then fail k "vector-size-differs"
+         | Some _, _ -> fail k "vector-push-without-a-pending-registration"
+         | None, _ -> ())
+      | ["D"; hid] ->
+        (match mreq k hid with None -> () | Some r ->
+          incr ndone; g := fst (sstep inl (SoMpi (nat r, false)) (nat (max !t0 0)) !g !l))
+      | ["S"; t; idx; hid] ->
+        if thread k t then
+        (match mreq k hid with None -> () | Some r ->
+          if to_test k then begin
+            st (SoTest (nat (ios idx)));
+            match !l with
+            | SDec (i, r', _) when int_of_nat i = ios idx && int_of_nat r' = r -> st SoNoTest
+            | SDec (_, _, _) -> fail k "testany-slot-holds-another-request-in-the-model"
+            | _ -> fail k "testany-reported-a-slot-the-model-does-not-hold-complete"
+          end)
+      | ["B"; hid; err] ->
+        (match mreq k hid, !l with
+         | Some r, SCall (_, r', e) when int_of_nat r' = r ->
+           if e <> (err <> "0") then fail k "callback-error-status-differs" else begin
+             st SoNoTest;
+             match !g.mlog with
+             | EvCall (c, rr, _) :: _ when int_of_nat c = r && int_of_nat rr = r -> ()
+             | _ -> fail k "callback-in-the-slot-is-not-the-one-registered-with-the-request"
+           end
+         | Some _, _ -> fail k "callback-entered-but-the-model-thread-is-not-at-the-invocation"
+         | None, _ -> ())
+      | ["R"; t; idx; size] ->
+        if thread k t then
+        (match !l with
+         | SInCb (i, _) when int_of_nat i = ios idx ->
+           if List.length !g.vcb <> ios size then fail k "callbacks_-size-changed-while-the-callback-ran"
+           else begin st SoRet; st SoNoTest end
+         | _ -> fail k "callback-returned-but-the-model-thread-is-not-inside-it")
+      | ["C"; t; before; aft] ->
+        if thread k t then begin
+          if to_test k then begin
+            st SoNoTest;
+            if List.length !g.vreq <> ios before then fail k "vector-size-before-compaction-differs"
+            else begin pend := []; after := ios aft end
+          end
+        end
+      | ["P"; _; i; a; b] -> pend := (ios i, ios a, ios b) :: !pend
+      | ["X"; t] ->
+        if thread k t then
+        (match !l with
+         | SCompact ->
+           st SoNoTest;
+           let exp = List.rev !pend in
+           if List.length !g.vreq <> !after || List.length exp <> !after then fail k "compacted-size-differs"
+           else begin
+             let ok = ref true in
+             List.iteri (fun i (pi, a, b) ->
+               let mr = (match List.nth !g.vreq i with Some r -> Hashtbl.find_opt rev (int_of_nat r) | None -> None) in
+               let mc = Hashtbl.find_opt rev (int_of_nat (snd (List.nth !g.vcb i))) in
+               if pi <> i || mr <> Some a || mc <> Some b then ok := false) exp;
+             if not !ok then fail k "compaction-pairing-differs"
+           end
+         | _ -> fail k "compaction-end-but-the-model-thread-is-not-compacting")
+      | ["K"; wc; nc] ->
+        if int_of_nat !g.in_flight <> ios wc then
+          fail k (Printf.sprintf "all_in_flight-differs-impl-%s-model-%d" wc (int_of_nat !g.in_flight))
+        else if List.length (calls !g.mlog) <> ios nc then
+          fail k (Printf.sprintf "callback-count-differs-impl-%s-model-%d" nc (List.length (calls !g.mlog)))
+      | ["L"; _] | ["T"; _; _; _] | ["H"; _; _; _] -> fail k "multithreaded-poll-event-in-single-threaded-trace"
+      | _ -> ()) toks;
+  match !reject with
+  | Some m -> Printf.printf "OUT STRACE %s reject@%s\n" id m
+  | None ->
+    let cl = List.sort compare (List.map (fun r -> match Hashtbl.find_opt rev (int_of_nat r) with Some h -> h | None -> -1) (calls !g.mlog)) in
+    let rec dups = function a :: (b :: _ as r) -> (if a = b then 1 else 0) + dups r | _ -> 0 in
+    Printf.printf "OUT STRACE %s calls=%s dup=%d inflight=%d lost=%d\n" id
+      (if cl = [] then "-" else String.concat "," (List.map string_of_int cl)) (dups cl)
+      (int_of_nat !g.in_flight) (!ndone - List.length cl)
+
 let tm id flags evs =
   match decode_mode (n_of_int (ios flags)) with
   | None -> Printf.printf "OUT TM %s invalid-mode\n" id
@@ -136,6 +261,7 @@ let () =
       let line = input_line stdin in
       match String.split_on_char ' ' line with
       | "IN" :: "TRACE" :: id :: _ :: _ :: toks -> trace id toks
+      | "IN" :: "STRACE" :: id :: _ :: _ :: toks -> strace id toks
       | "IN" :: "TM" :: id :: flags :: evs -> tm id flags evs
       | "IN" :: "CMP" :: id :: slots -> cmp id (List.filter (fun s -> s <> "") slots)
       | _ -> ()
